@@ -104,6 +104,11 @@ impl FileTransfer {
 
         if self.state == FileTransferState::Started || self.state == FileTransferState::MissingStart
         {
+            if package_nr < self.next_package {
+                // duplicate of a package that was received already. We tolerate/ignore those.
+                // (must not be counted as otherwise the transfer would be treated as incomplete)
+                return false;
+            }
             self.recvd_packages += 1;
             if package_nr == self.next_package {
                 // package contains data?
